@@ -165,6 +165,76 @@ func (pool *TxPool) VerifRequestReset(oldHead, newHead *types.Header) {
 	<-pool.requestReset(oldHead, newHead)
 }
 
+// VerifReq is one event handed to the scheduler during VerifCoalesced.
+//   Reset:        a head change (what loop() does on a ChainHeadEvent)
+//   Txs != nil:   a remote submission (what addTxs does: addTxsLocked under the
+//                 lock, then a promotion request for the dirty accounts)
+//   otherwise:    a promotion request for Dirty
+type VerifReq struct {
+	Reset    bool
+	Old, New *types.Header
+	Dirty    []common.Address
+	Txs      []*types.Transaction
+}
+
+// VerifCoalesced delivers a burst of events to scheduleReorgLoop while a run is
+// in flight, without awaiting any of them: the pool lock is held by the caller's
+// goroutine, an (empty) promotion request makes the scheduler launch a run that
+// blocks on that lock (a no-op run when it gets the lock: nothing to promote), and every further request is therefore merged by the
+// scheduler into the one next run.  Returns after all requested runs are done,
+// with the per-submission errors and dirty accounts.
+func (pool *TxPool) VerifCoalesced(reqs []VerifReq, atReset func(i int)) ([][]error, [][]common.Address) {
+	for _, r := range reqs {
+		for _, tx := range r.Txs {
+			types.Sender(pool.signer, tx)
+		}
+	}
+	errs := make([][]error, len(reqs))
+	dirties := make([][]common.Address, len(reqs))
+	var dones []chan struct{}
+
+	pool.mu.Lock()
+	// The run for d0 is launched as soon as the scheduler has taken note that the
+	// previous run ended; from then on requests get the done channel of the NEXT
+	// run.  Empty promotion requests are repeated until that is the case (they
+	// merge into nothing), so that exactly the events below form the next run.
+	d0 := pool.requestPromoteExecutables(newAccountSet(pool.signer))
+	dones = append(dones, d0)
+	for n := 0; ; n++ {
+		d := pool.requestPromoteExecutables(newAccountSet(pool.signer))
+		if d != d0 {
+			dones = append(dones, d)
+			break
+		}
+		if n > 1000000 {
+			panic("VerifCoalesced: the scheduler never launched the blocked run")
+		}
+	}
+	for i, r := range reqs {
+		switch {
+		case r.Reset:
+			if atReset != nil {
+				atReset(i) // the chain is on the new head when its event is delivered
+			}
+			dones = append(dones, pool.requestReset(r.Old, r.New))
+		case r.Txs != nil:
+			es, dirty := pool.addTxsLocked(r.Txs, false)
+			errs[i] = es
+			for a := range dirty.accounts {
+				dirties[i] = append(dirties[i], a)
+			}
+			dones = append(dones, pool.requestPromoteExecutables(dirty))
+		default:
+			dones = append(dones, pool.requestPromoteExecutables(newAccountSet(pool.signer, r.Dirty...)))
+		}
+	}
+	pool.mu.Unlock()
+	for _, d := range dones {
+		<-d
+	}
+	return errs, dirties
+}
+
 // VerifRemoveTx is removeTx under the pool lock.
 func (pool *TxPool) VerifRemoveTx(hash common.Hash, outofbound bool) {
 	pool.mu.Lock()
